@@ -1,5 +1,6 @@
 import GrmVerif.Lemmas.LRSound
 import GrmVerif.Lemmas.LRComplete2
+import GrmVerif.Lemmas.Term2
 import GrmVerif.Props.C17
 /-!
 # C01 — a generated parser recognises exactly the grammar's language
@@ -119,5 +120,42 @@ theorem lr_accepts_iff_sentence (G : Grammar) (A : Automaton) (hc : check G A = 
   · rintro ⟨T, S, hv, hS, hr, hy⟩
     obtain ⟨fuel, T', h, _⟩ := lr_complete G A hc An hAn hla w hw T S hv hS hr hy
     exact ⟨fuel, T', h⟩
+
+/-- **Termination.** On an automaton that passes `check` and the termination certificate
+`Term.termCheck` (every run of reductions started from one state, or from two stacked states, under
+one lookahead ends within `N` steps — evaluated on every dumped automaton), the driver ends on EVERY
+input: some amount of fuel gives an answer. -/
+theorem lr_terminates (G : Grammar) (A : Automaton) (hc : check G A = true) (N : Nat)
+    (ht : Term.termCheck G A N = true) (w : List Nat) (hw : InputOk G w) :
+    ∃ fuel, parse G A w fuel ≠ .fuelOut :=
+  Term.run_total (check_props G A hc) ht hw w.length (init A) (inv_init w) (by simp [init])
+
+/-- **Every non-sentence is rejected with an error** (second half of the property's last sentence;
+needs termination): on an automaton that passes all of `check`, `checkLA` and `termCheck`, an input
+that is not a sentence makes the driver report an error. -/
+theorem lr_rejects_non_sentence (G : Grammar) (A : Automaton) (hc : check G A = true) (N : Nat)
+    (ht : Term.termCheck G A N = true) (w : List Nat) (hw : InputOk G w) (hns : ¬ Sentence G w) :
+    ∃ fuel i st, parse G A w fuel = .error i st := by
+  obtain ⟨fuel, hf⟩ := lr_terminates G A hc N ht w hw
+  cases ho : parse G A w fuel with
+  | accept t =>
+    obtain ⟨h1, ⟨S, hS, hr⟩, h3⟩ := lr_sound G A hc w hw fuel t ho
+    exact absurd ⟨t, S, h1, hS, hr, h3⟩ hns
+  | error i st => exact ⟨fuel, i, st, ho⟩
+  | crash n => exact absurd ho (lr_no_crash G A hc w hw fuel n)
+  | fuelOut => exact absurd ho hf
+
+/-- **The parser decides the language**: with all three certificates, for every input exactly one of
+"accepted with some fuel" and "rejected with an error with some fuel" holds, according to whether
+the input is a sentence. -/
+theorem lr_decides (G : Grammar) (A : Automaton) (hc : check G A = true)
+    (An : Analyses) (hAn : analyses G = some An)
+    (hla : checkLA G A (An.nullable.contains ·) (An.first.contains ·) = true)
+    (N : Nat) (ht : Term.termCheck G A N = true) (w : List Nat) (hw : InputOk G w) :
+    (Sentence G w ∧ ∃ fuel t, parse G A w fuel = .accept t) ∨
+    (¬ Sentence G w ∧ ∃ fuel i st, parse G A w fuel = .error i st) := by
+  by_cases hs : Sentence G w
+  · exact Or.inl ⟨hs, (lr_accepts_iff_sentence G A hc An hAn hla w hw).mpr hs⟩
+  · exact Or.inr ⟨hs, lr_rejects_non_sentence G A hc N ht w hw hs⟩
 
 end GrmVerif.C01
